@@ -109,8 +109,9 @@ class FollowFTPFilter(BaseURLFilter):
 class BackwardDomainFilter(BaseURLFilter):
     '''Return whether the hostname matches a list of hostname suffixes.'''
     def __init__(self, accepted=None, rejected=None):
-        self._accepted = accepted
-        self._rejected = rejected
+        # Hostnames of parsed URLs are lowercase
+        self._accepted = [item.lower() for item in accepted or ()]
+        self._rejected = [item.lower() for item in rejected or ()]
 
     def test(self, url_info, url_table_record):
         test_domain = url_info.hostname
@@ -135,8 +136,9 @@ class BackwardDomainFilter(BaseURLFilter):
 class HostnameFilter(BaseURLFilter):
     '''Return whether the hostname matches exactly in a list.'''
     def __init__(self, accepted=None, rejected=None):
-        self._accepted = accepted
-        self._rejected = rejected
+        # Hostnames of parsed URLs are lowercase
+        self._accepted = [item.lower() for item in accepted or ()]
+        self._rejected = [item.lower() for item in rejected or ()]
 
     def test(self, url_info, url_table_record):
         test_domain = url_info.hostname
